@@ -133,6 +133,7 @@ type State struct {
 	held    string         // ghost: mutex held (Bool term)
 	frames  []frame
 	havocs  []havocRec
+	noTypeInv bool
 }
 
 func (s *State) clone() *State {
@@ -356,6 +357,11 @@ func (s *State) refFacts(c comp, term string) {
 		switch kindOf(c.T) {
 		case kPtr, kMap, kChan:
 			s.assume(and(app("<=", "0", term), app("<", term, s.alloc)))
+			if kindOf(c.T) == kPtr && !s.noTypeInv {
+				if f := s.typeInvFact(c.T, term); f != "" {
+					s.assume(f)
+				}
+			}
 		case kStr:
 			s.strBasics(term)
 		case kInt:
